@@ -5,8 +5,10 @@ Usage: seed_confirm.py <PROP> <K>    (reads /tmp/seed/out_<PROP>/patch_<K>.diff 
 On success stores /verif/seeded/<PROP>_<K>/{patch.diff,demo.sh,meta.json}."""
 import json, os, subprocess, sys, shutil, re
 prop, k = sys.argv[1], sys.argv[2]
+wave = sys.argv[3] if len(sys.argv) > 3 else '1'     # wave 2 reads /tmp/seed/out2_<PROP> and stores <PROP>_<k+2>
 wt = f'/tmp/seed/{prop}'
-out = f'/tmp/seed/out_{prop}'
+out = f'/tmp/seed/out_{prop}' if wave == '1' else f'/tmp/seed/out{wave}_{prop}'
+sid = f'{prop}_{k}' if wave == '1' else f'{prop}_{int(k) + 2 * (int(wave) - 1)}'
 def sh(cmd, **kw):
     p = subprocess.run(cmd, shell=True, stdout=subprocess.PIPE, stderr=subprocess.STDOUT, text=True, **kw)
     return p.returncode, p.stdout
@@ -28,9 +30,9 @@ step('revert', 'git checkout -- .')
 step('rebuild', 'cargo build --offline 2>&1 | tail -1')
 rc_without, o2 = step('demo_without_change', f'bash {out}/demo_{k}.sh {wt}')
 ok = tests_ok and rc_with == 1 and rc_without == 0
-print(f'{prop}_{k}: tests_ok={tests_ok} demo_with={rc_with} demo_without={rc_without} => {"CONFIRMED" if ok else "REJECTED"}')
+print(f'{sid}: tests_ok={tests_ok} demo_with={rc_with} demo_without={rc_without} => {"CONFIRMED" if ok else "REJECTED"}')
 if ok:
-    d = f'/verif/seeded/{prop}_{k}'
+    d = f'/verif/seeded/{sid}'
     os.makedirs(d, exist_ok=True)
     shutil.copy(f'{out}/patch_{k}.diff', f'{d}/patch.diff')
     shutil.copy(f'{out}/demo_{k}.sh', f'{d}/demo.sh')
